@@ -93,6 +93,41 @@ def _rand_steps(rng, tree, start, nsteps, p_miss, canon):
     return steps
 
 
+def _rand_mixed(rng, tree, nodes):
+    """(start node, ast): a strict path on which BOTH a failing lookup and a slice step written as 0 can be
+    reached — a wide slice first, then names that exist below some of the selected children only, more wide
+    slices, and a zero step at a random place among them (so that the two errors arise at equal or at
+    different slice depths, in either sequence order)"""
+    cands = [x for x in nodes if len(x["kids"]) >= 2 and any(k["kids"] for k in x["kids"])]
+    start = rng.choice(cands) if cands else tree
+    pool = []
+    for k in start["kids"]:
+        for j, g in enumerate(k["kids"]):
+            s = g["name"] if k["k"] in ("d", "c") else str(j)
+            if s and cm.good_name(s):
+                pool.append(s)
+        for g in k["kids"]:
+            for j2, h in enumerate(g["kids"]):
+                s = h["name"] if g["k"] in ("d", "c") else str(j2)
+                if s and cm.good_name(s) and rng.random() < 0.3:
+                    pool.append(s)
+    pool = pool or ["a", "0"]
+    follow = []
+    for _ in range(rng.choice([1, 2, 2, 3])):
+        r = rng.random()
+        if r < 0.55:
+            s = rng.choice(pool) if rng.random() < 0.85 else "nosuch"
+            follow.append({"t": "name", "s": s, "br": False, "sep": rng.random() < 0.2, "escall": False})
+        elif r < 0.9:
+            follow.append({"t": "slice", "a": None, "b": None, "sep": False})
+        else:
+            follow.append({"t": "here"})
+    follow.insert(rng.randrange(len(follow) + 1),
+                  {"t": "slice", "a": rng.choice([None, None, 0, 1]), "b": None, "c": {"v": 0}, "sep": False})
+    steps = [{"t": "slice", "a": None, "b": None, "sep": False}] + follow
+    return start, {"top": False, "trail": False, "steps": steps}
+
+
 def _make_canon(steps):
     """move every `..` to the front (the restriction of the main theorem)"""
     ups = [s for s in steps if s["t"] == "up"]
@@ -204,6 +239,17 @@ def _denote_obs(ast, start, label, single, strict):
     return cm.single_of(strict, r) if single else r
 
 
+def _ordered_obs(path, start, label, strict):
+    try:
+        r = cm.ord_denote(path, start, strict)
+    except Exception as e:  # noqa: BLE001 — tokenize() raising ValueError is the observation
+        cm.reraise_timeout(e)
+        return {"error": cm.exc_name(e)}
+    if r[0] == "err":
+        return {"error": r[2], "depth": r[1]}
+    return {"list": cm.labels(label, r[1])}
+
+
 def _removed_ids(case, byid):
     return frozenset(id(byid[r["id"]]) for r in case.get("removed", []))
 
@@ -250,6 +296,10 @@ class C14(Property):
     title = "Path expressions select what the documented path syntax denotes"
     proof_module = "Proofs.C14"
     theorems = [
+        "Flatland.C14.Proofs.evalOps_denotes_gen",
+        "Flatland.C14.Proofs.find_denotes_gen",
+        "Flatland.C14.Proofs.denOrd_forget_of_uni",
+        "Flatland.C14.Proofs.evalOps_denotes_cor",
         "Flatland.C14.Proofs.evalOps_denotes",
         "Flatland.C14.Proofs.find_error",
         "Flatland.C14.Proofs.find_denotes",
@@ -374,6 +424,20 @@ class C14(Property):
             {"t": "name", "s": "l", "br": False, "sep": False, "escall": False},
             {"t": "slice", "a": 1, "b": None, "c": {"v": 0}, "sep": False}]}
         out.append(self._case(d, 0, "l[1::0]", False, False, astz2))
+        # strict lookups AND a zero step on the same path (evalOps_denotes_gen; the two `example`s beside it):
+        # equal depth -> the earlier one in sequence order (ValueError below x/a before LookupError below y);
+        # different depths -> the shallower one (LookupError at depth 1 before ValueError at depth 2)
+        mixed = cm.number({"k": "d", "name": "r", "kids": [
+            {"k": "d", "name": "x", "kids": [{"k": "l", "name": "a", "member": {"k": "s", "name": None},
+                                              "kids": [{"k": "s", "name": None, "kids": []}]}]},
+            {"k": "d", "name": "y", "kids": []}]})
+        nm_a = {"t": "name", "s": "a", "br": False, "sep": False, "escall": False}
+        sl_all = {"t": "slice", "a": None, "b": None, "sep": False}
+        sl_zero = {"t": "slice", "a": None, "b": None, "c": {"v": 0}, "sep": False}
+        for steps in ([sl_all, nm_a, sl_zero], [sl_all, nm_a, sl_all, sl_zero], [sl_all, sl_zero, nm_a]):
+            astm = {"top": False, "trail": False, "steps": copy.deepcopy(steps)}
+            for strict_ in (True, False):
+                out.append(self._case(mixed, 0, cm.print_path(astm), strict_, False, astm))
         # a name ending in a backslash as the very last step (spellable there only)
         dbs = cm.number({"k": "d", "name": "r", "kids": [{"k": "s", "name": "x\\", "kids": []},
                                                           {"k": "d", "name": "a", "kids": [{"k": "s", "name": "\\", "kids": []}]}]})
@@ -488,6 +552,9 @@ class C14(Property):
                 if r < 0.15:
                     path = _rand_malformed(rng, tree)
                     yield self._case(tree, start["id"], path, strict, single, None, rng.choice([None] * 9 + ["list"]), init, history)
+                elif r < 0.21:
+                    start, ast = _rand_mixed(rng, tree, nodes)
+                    yield self._case(tree, start["id"], cm.print_path(ast), rng.random() < 0.9, single, ast, None, init, history)
                 else:
                     top = rng.random() < (0.7 if from_grafted else 0.3)
                     walk_from = tree if top else start
@@ -511,7 +578,13 @@ class C14(Property):
             "ops": _ops_obs(case["path"]),
             "result": _find_obs(start, label, case["path"], case["single"], case["strict"], case.get("as_segments")),
         }
+        if self.has_model(case):
+            # spec `denOrd` (depth-first reading, errors ranked by slice depth then sequence order) transcribed
+            # over the documented navigation of the real elements; the model returns Lean's `denOrd`
+            obs["ordered"] = _ordered_obs(case["path"], start, label, case["strict"])
         ast = case.get("ast")
+        if ast is not None and cm.ast_spellable(ast):
+            obs["_kinds"] = sorted(cm.doc_outcomes(ast, start, case["strict"], _removed_ids(case, byid))[1])
         if ast is not None:
             obs["printed"] = cm.enc(cm.print_path(ast))
             obs["denoted"] = _denote_obs(ast, start, label, case["single"], case["strict"])
@@ -656,6 +729,17 @@ class C14(Property):
                 t.append("step:%s" % s["t"])
             if cm.has_zero_step(ast):
                 t.append("zero-stride")
+                if case["strict"]:
+                    t.append("zero-stride+strict")
+            kinds = obs.get("_kinds") or []
+            if len(kinds) == 2:
+                # a strict lookup fails on one element AND a zero step is reached on another: the territory of
+                # evalOps_denotes_gen / find_denotes_gen (the old theorems assumed it away)
+                t.append("both-error-kinds-possible")
+                t.append("both-error-kinds-possible:raised=%s" % r.get("error"))
+                o = obs.get("ordered") or {}
+                if "depth" in o:
+                    t.append("both-error-kinds-possible:depth=%d" % min(o["depth"], 3))
             if ast["steps"] and ast["steps"][-1]["t"] == "name" and ast["steps"][-1]["s"].endswith("\\"):
                 t.append("last-name-ends-in-backslash")
             if ast["top"]:
